@@ -925,6 +925,9 @@ impl StoreWorkload {
         // C10 "stale state" scenario (30% of C10 runs): a weed that counts only unambiguous bases,
         // then operations that depend on per-k-mer counts, on data rich in ambiguity codes
         let stale = focus == "C10" && rng.chance(30);
+        // C10 "emptied table" scenario (6% of C10 runs): a file weeded down to zero k-mers (its
+        // samples remain) takes part in merges, first and last
+        let emptied = focus == "C10" && !stale && rng.chance(8);
         let k = if (stale && rng.chance(60)) || (matches!(focus, "C06" | "C10") && rng.chance(15)) { *rng.pick(&[5usize, 7, 7, 9]) } else { pick_k(&mut rng) };
         let ss = rng.chance(30);
         let max_n = match (focus, tier) {
@@ -1017,6 +1020,7 @@ impl StoreWorkload {
                     rng.range(1, 3.min(n))
                 }
             }
+            _ if emptied => 2.min(n),
             _ => rng.range(1, 3.min(n)),
         };
         let mut order: Vec<usize> = (0..n).collect();
@@ -1124,6 +1128,27 @@ impl StoreWorkload {
                         }
                         ops.push(Op::Weed { file: cur.clone(), o, out });
                     }
+                }
+            }
+            _ if emptied && files.len() == 2 => {
+                let nomatch_len = k + 20;
+                extra.insert("nomatch.fa".into(), crate::util::wrap_fasta("nm", &rng.dna(nomatch_len), 0));
+                let fl: Vec<String> = files.keys().cloned().collect();
+                let (a, b) = (fl[0].clone(), fl[1].clone());
+                let o = WeedOpts { weed: Some("nomatch.fa".into()), reverse: true, min_count: 0, ambig_missing: false, filter: SiteFilter::NoFilter, ambig_mask: false, no_gap_only: false };
+                ops.push(Op::Weed { file: a.clone(), o, out: None });
+                if rng.chance(40) {
+                    ops.push(Op::Resave { file: a.clone() });
+                }
+                let (m1, m2) = (newname("m"), newname("m"));
+                ops.push(Op::Merge { out: m1.clone(), inputs: vec![a.clone(), b.clone()] });
+                ops.push(Op::Merge { out: m2.clone(), inputs: vec![b.clone(), a.clone()] });
+                let names: Vec<String> = files[&a].iter().chain(files[&b].iter()).cloned().collect();
+                let obs = gen_observers(&mut rng, names.len(), &names, &weeds, 3);
+                ops.push(Op::Canon { file: m1, observers: obs });
+                if files[&a].len() >= 2 {
+                    // deleting from the emptied file
+                    ops.push(Op::Delete { file: a.clone(), names: vec![files[&a][0].clone()], via_file: false, out: None });
                 }
             }
             _ if stale => {
